@@ -72,6 +72,53 @@ def oracle(r, plan):
     return None
 
 
+def obstructed_world(seed, i):
+    """Something sits where an export DIRECTORY is needed - a regular file, or a dangling symbolic link - so that every
+    write below it fails with a real error (no injection).  The failure must stay with the pieces that need that
+    directory: every other piece, of this and of every other torrent, gets the usual guarantees."""
+    for attempt in range(40):
+        w = runprops.world_for("obstructed", seed, 40 * i + attempt)
+        rng = vlib.rng_for(seed, "C13obst/%d/%d" % (i, attempt))
+        cands = [(t, f) for t in w.torrents if not t.single for f in t.files if not f.pad and len(t.rel_target(f)) >= 4]
+        if not cands:
+            continue
+        t, f = rng.choice(cands)
+        rel = tuple(w.export) + tuple(t.rel_target(f))
+        depth = rng.randrange(len(w.export) + 3, len(rel))        # somewhere from Data/<name> down to the file's own directory
+        blocked = rel[:depth]
+        for k in list(w.files):
+            if k[:len(blocked)] == blocked:
+                del w.files[k]
+        w.files = {k: v for k, v in w.files.items() if not (v[0] == "link" and tuple(v[1]) not in w.files)}
+        w.files[blocked] = ("file", b"in the way") if rng.random() < 0.5 else ("symlink", b"no-such-target")
+        w.notes["blocked"] = blocked
+        w.resize = False        # (with the flag on, the pre-flight's open of a file below a regular file fails with ENOTDIR and the whole run returns Err - as the model's prelude does)
+        w.threads = rng.choice([1, 1, 2, 4])
+        return w
+    return None
+
+
+def obstructed_oracle(r):
+    rr, ce, w = r["rr"], r["ce"], r["w"]
+    if rr.result != "ok":
+        return "with %r in the way of an export directory the run did not return Ok: %s %s" % (w.files[w.notes["blocked"]][0], rr.result, getattr(rr, "result_msg", ""))
+    cx = oracles.Ctx(w, rr, ce)
+    total = sum(len(t.hashes) for t in cx.torrents)
+    outs = ce["outcomes"]
+    if sum(len(v) for v in outs.values()) != total or any(len(v) != 1 for v in outs.values()):
+        return "not every piece was evaluated exactly once (%d outcomes for %d pieces)" % (sum(len(v) for v in outs.values()), total)
+    for fn in (oracles.c01, oracles.c03):
+        bad = fn(cx)
+        if bad:
+            return bad
+    blocked = w.notes["blocked"]
+    for t, pc in oracles.available_pieces(cx):
+        below = any((cx.export_rel + tuple(t.rel_target(t.files[k])))[:len(blocked)] == blocked for k, off, ln in oracles.piece_segments(t, pc[0]) if not t.files[k].pad)
+        if not below and not cx.piece_verifies(rr.after, t, pc, False):
+            return "piece %d of %s was available and needs nothing below the obstruction at %r, yet it was not recovered" % (pc[0], t.hex, b"/".join(blocked))
+    return None
+
+
 def build(ctx, tier):
     nworlds = 14 if tier == "quick" else 60
     per = 24 if tier == "quick" else 80
@@ -125,10 +172,25 @@ def correspondence(ctx):
         elif not r["verdict"].startswith("ok"):
             if len(broken) < 10:
                 broken.append({"what": "the faulty run is not a behaviour of the model: " + r["verdict"][:600], "scenario": r["sc"].ident()})
+    # third stream: a real obstruction (no injection)
+    obst = []
+    for i in range(16 if ctx["tier"] == "quick" else 120):
+        w = obstructed_world(ctx["seed"], i)
+        if w is not None:
+            obst.append((runprops.Scenario("obstructed", ctx["seed"], i, {"what": w.files[w.notes["blocked"]][0]}), w))
+    for r in runprops.run_scenarios(ctx, obst):
+        runs.append(r)
+        kinds["obstruction: " + r["sc"].variant["what"]] += 1
+        bad = obstructed_oracle(r)
+        if bad:
+            if len(findings) < 5:
+                findings.append({"scenario": r["sc"].ident(), "violated_clause": bad, "model_verdict": r["verdict"][:400], "world": runprops.describe_world(r["w"])})
+        elif not r["verdict"].startswith("ok") and len(broken) < 10:
+            broken.append({"what": "the obstructed run is not a behaviour of the model: " + r["verdict"][:600], "scenario": r["sc"].ident()})
     res = runprops.result("C13", ctx, runs, findings, broken, {"failed operation kinds": dict(kinds), "reference runs": len(refs)},
-                          "generated worlds; reference run, then the k-th file operation fails (sampled k over the whole run, plus pairs); kinds: open, fstat, read, create_dir_all, set_len, seek, write; result/counters/per-piece outcomes/tree checked and the faulty run replayed against the model",
+                          "worlds with a regular file or a dangling symbolic link where an export directory is needed (real errors, no injection; pieces that need nothing below it keep their guarantees); generated worlds; reference run, then the k-th file operation fails (sampled k over the whole run, plus pairs); kinds: open, fstat, read, create_dir_all, set_len, seek, write; result/counters/per-piece outcomes/tree checked and the faulty run replayed against the model",
                           "fault_closed / lock_ok / good for every answer proved on the piece programs; tied to the code by trace validation of faulty runs")
-    res["distinct_nontrivial"] = len(set((r["sc"].tag, r["sc"].index, tuple(r["sc"].variant["fail"])) for r in runs if any("fault" in v for v in r["ce"]["outcomes"].values())))
+    res["distinct_nontrivial"] = len(set((r["sc"].tag, r["sc"].index, tuple(r["sc"].variant.get("fail", []))) for r in runs if any("fault" in v for v in r["ce"]["outcomes"].values())))
     return res
 
 
@@ -136,6 +198,13 @@ def replay(ctx, payload):
     vlib.build_harness()
     ctx["driver"] = vlib.build_driver()
     sc = payload["scenario"]
+    if sc["tag"] == "obstructed":
+        w = obstructed_world(sc["world_seed"], sc["index"])
+        runs = runprops.run_scenarios(ctx, [(runprops.Scenario("obstructed", sc["world_seed"], sc["index"], sc["variant"]), w)])
+        bad = obstructed_oracle(runs[0])
+        print("result:", runs[0]["rr"].result, "model verdict:", runs[0]["verdict"][:300])
+        print("violated clause:", bad)
+        return 1 if bad else 0
     if sc["tag"] == "faultempty":
         w = runprops.world_for("faultempty", sc["world_seed"], sc["index"], empties=True)
         w.remove_files(lambda rel, data: len(data) == 0)
